@@ -5,10 +5,12 @@ from pyvc.unit import unit
 
 ANA, DEX = S.ANA, S.DEX
 META = {
-    "technique": 'contract-based deductive verification: symbolic execution of the real functions against sidecar contracts (z3/cvc5) for the proved units; bounded contract evaluation (enumerated scope / independent writer) for the rest',
+    "technique": 'contract-based deductive verification: symbolic execution of the real functions against sidecar contracts (z3/cvc5) for the proved units, inductive loop invariants and termination variants on the real loops (unbounded in length and iteration count); bounded contract evaluation (enumerated scope / independent writer) for the rest',
     "level": "other",
     "partial": True,
-    "level_text": "Proof: Exceptions.get_exception over lists of 0..3 try ranges with symbolic bounds and a symbolic block range: it "
+    "level_text": "Loop contract (unbounded): Exceptions.get_exception over a try table of any length returns the first range that "
+                  "overlaps the block and None only if none does (uninterpreted range bounds, Skolem indices). Proof: "
+                  "Exceptions.get_exception over lists of 0..3 try ranges with symbolic bounds and a symbolic block range: it "
                   "returns a range iff some range overlaps the block, and the returned range overlaps it (the loop is a pure search, "
                   "unrolled for each list length); ExceptionAnalysis.__init__ attaches to every handler the block containing its "
                   "address. Bounded (composition): on every enumerated small method each block's exception information is compared "
